@@ -8,6 +8,7 @@ package gocql
 // expected values come from TLC, the verdict operators are evaluated by TLC on the traces.
 
 import (
+	"context"
 	"encoding/hex"
 	"encoding/json"
 	"fmt"
@@ -39,7 +40,100 @@ type vfC15Case struct {
 	// m >= 0 = stop asking for rows after m rows and Close. Rebind: q.Bind(values...) before executions 2, 3.
 	Plan   []int `json:"plan"`
 	Rebind int   `json:"rebind"`
+	// Opt: one execution option of the Query (none | serial | spec | retry | ctx | ctxto | observer | trace | ts |
+	// payload | release); none of them changes what the property demands of the iteration.
+	Opt string `json:"opt"`
 }
+
+// vfC15Req is a QUERY / EXECUTE body decoded field by field in the order of native_protocol_v4.spec section 4.1.4
+// (<consistency><flags>[<n>[name_1]<value_1>...][<result_page_size>][<paging_state>][<serial_consistency>]
+// [<timestamp>]), every optional field the flags announce, nothing left over - independent of the driver's writer.
+type vfC15Req struct {
+	Text    string // statement (QUERY) or prepared id (EXECUTE)
+	Cons    int
+	Flags   int
+	Vals    string
+	Size    int // -1: no page size
+	State   []byte
+	Serial  int   // -1: none
+	TS      int64 // valid if HasTS
+	HasTS   bool
+	Payload string
+	Err     string
+}
+
+func vfC15Decode(f *vfFrame) *vfC15Req {
+	q := &vfC15Req{Size: -1, Serial: -1}
+	r := &vfR{b: f.Body}
+	if f.Flags&0x04 != 0 { // custom payload: [bytes map]
+		n := r.Short()
+		var ps []string
+		for i := 0; i < n && r.err == nil; i++ {
+			k := r.String()
+			v, _ := r.Bytes()
+			ps = append(ps, k+"="+hex.EncodeToString(v))
+		}
+		q.Payload = strings.Join(ps, ",")
+	}
+	if f.Op == vfOpQuery {
+		q.Text = r.LongString()
+	} else {
+		q.Text = string(r.ShortBytes())
+	}
+	q.Cons = r.Short()
+	q.Flags = int(r.Byte())
+	if q.Flags&0x01 != 0 {
+		n := r.Short()
+		var vs []string
+		for i := 0; i < n && r.err == nil; i++ {
+			name := ""
+			if q.Flags&0x40 != 0 {
+				name = r.String() + ":"
+			}
+			v, k := r.Bytes()
+			if k != 0 {
+				vs = append(vs, fmt.Sprintf("%sk%d", name, k))
+			} else {
+				vs = append(vs, name+hex.EncodeToString(v))
+			}
+		}
+		q.Vals = strings.Join(vs, ",")
+	}
+	if q.Flags&0x04 != 0 {
+		q.Size = int(r.Int())
+	}
+	if q.Flags&0x08 != 0 {
+		q.State, _ = r.Bytes()
+	}
+	if q.Flags&0x10 != 0 {
+		q.Serial = r.Short()
+	}
+	if q.Flags&0x20 != 0 {
+		q.TS = r.Long()
+		q.HasTS = true
+	}
+	if r.err != nil {
+		q.Err = r.err.Error()
+	} else if len(r.b) != 0 {
+		q.Err = fmt.Sprintf("%d bytes left over after the last announced field", len(r.b))
+	} else if q.Flags&0x80 != 0 {
+		q.Err = "flag 0x80 is not defined in protocol 4"
+	}
+	return q
+}
+
+type vfC15Rethrow struct{}
+
+func (vfC15Rethrow) Attempt(RetryableQuery) bool  { return true }
+func (vfC15Rethrow) GetRetryType(error) RetryType { return Rethrow }
+
+type vfC15Obs struct{ n int64 }
+
+func (o *vfC15Obs) ObserveQuery(context.Context, ObservedQuery) { atomic.AddInt64(&o.n, 1) }
+
+type vfC15Tracer struct{ n int64 }
+
+func (t *vfC15Tracer) Trace(id []byte) { atomic.AddInt64(&t.n, 1) }
 
 type vfC15Result struct {
 	Run     int      `json:"run"` // trace id of this execution: job*8 + exec
@@ -88,9 +182,10 @@ type vfC15Worker struct {
 	sess  [2]*Session
 	nodes [2]*vfNode
 	cur   atomic.Value // *vfC15Run
-	stale int64        // requests that belong to no running iteration
-	late  int64        // ... of which: prefetches of iterators the caller had abandoned (expected; nobody waits for them)
-	abJob sync.Map     // jobs in which the caller abandoned an iterator
+	churn [2]*Query
+	stale int64    // requests that belong to no running iteration
+	late  int64    // ... of which: prefetches of iterators the caller had abandoned (expected; nobody waits for them)
+	abJob sync.Map // jobs in which the caller abandoned an iterator
 }
 
 func (w *vfC15Worker) countStale(job int) {
@@ -138,10 +233,8 @@ func (w *vfC15Worker) handle(nc *vfNodeConn, f *vfFrame, q *vfRequest) bool {
 		nc.Reply(f, vfOpResult, vfPreparedBody(f.Version, []byte("id:"+q.Stmt), "ks", "t", strings.Count(q.Stmt, "?"), vfC15Cols))
 		return true
 	case vfOpQuery, vfOpExecute:
-		text := q.Stmt
-		if f.Op == vfOpExecute {
-			text = string(q.PreparedID)
-		}
+		d := vfC15Decode(f)
+		text := d.Text
 		run := vfC15RunOf(text)
 		if run < 0 {
 			return false
@@ -152,48 +245,49 @@ func (w *vfC15Worker) handle(nc *vfNodeConn, f *vfFrame, q *vfRequest) bool {
 			nc.Reply(f, vfOpError, vfErrorBody(0x0000, "vf-stale request of a finished iteration", nil))
 			return true
 		}
-		texec, tok := vfC15Tok(run, q.PageState)
-		if q.PageState != nil && tok > 0 && texec != 0 && texec != r.exec {
+		texec, tok := vfC15Tok(run, d.State)
+		if d.Err != "" || (d.Flags&0x08 != 0 && len(d.State) == 0) {
+			tok = -1 // a request a server following the protocol specification cannot decode (or an empty state)
+		}
+		if d.Err == "" && tok > 0 && texec != 0 && texec != r.exec {
 			// a paging state the node issued during an EARLIER execution of this Query value: a prefetch of an
 			// abandoned iterator that is still under way, or state that leaked into the re-executed Query. It is
 			// not logged as a request of this execution (the two cannot be told apart on the wire); it is served
 			// like any request, so whatever the caller is handed because of it shows in the rows it receives.
 			w.countStale(run)
-			r.serve(nc, f, q, tok, 0, false)
+			r.serve(nc, f, d, tok, 0, false)
 			return true
 		}
-		r.onRequest(nc, f, q, text, tok)
+		r.onRequest(nc, f, d, text, tok)
 		return true
 	}
 	return false
 }
 
-func (r *vfC15Run) onRequest(nc *vfNodeConn, f *vfFrame, q *vfRequest, text string, tok int) {
+func (r *vfC15Run) onRequest(nc *vfNodeConn, f *vfFrame, q *vfC15Req, text string, tok int) {
 	op := "QUERY"
 	if f.Op == vfOpExecute {
 		op = "EXECUTE"
 	}
-	vals := make([]string, 0, len(q.Values))
-	for i, v := range q.Values {
-		if q.ValueKinds[i] != 0 {
-			vals = append(vals, fmt.Sprintf("k%d", q.ValueKinds[i]))
-		} else {
-			vals = append(vals, hex.EncodeToString(v))
+	flags := q.Flags &^ 0x08 // everything but "with paging state"
+	// the default timestamp is taken anew for every request: its presence must not change, its value may; a
+	// timestamp the caller chose (WithTimestamp) must be repeated as it is
+	ts := "none"
+	if q.HasTS {
+		ts = "set"
+		if r.c.Opt == "ts" {
+			ts = strconv.FormatInt(q.TS, 10)
 		}
 	}
-	size := -1
-	if q.HasPageSize {
-		size = q.PageSize
-	}
-	flags := q.QFlags &^ 0x08 // everything but "with paging state"
-	vs := strings.Join(vals, ",")
+	hflags := int(f.Flags)
 	r.mu.Lock()
 	r.nreq++
 	k := r.nreq
 	r.reqs = append(r.reqs, tok)
-	r.reqf = append(r.reqf, fmt.Sprintf("%s|%s|%s|%d|%d|%d", op, text, vs, size, q.Cons, flags))
+	r.reqf = append(r.reqf, fmt.Sprintf("%s|%s|%s|%d|%d|%d|%d|%s|%d|%s", op, text, q.Vals, q.Size, q.Cons, flags, q.Serial, ts, hflags, q.Payload))
 	// the event is appended inside the same critical section that orders the requests
-	r.tr.Emit("req", "run", r.id, "tok", tok, "op", op, "stmt", text, "vals", vs, "size", size, "cons", q.Cons, "flags", flags)
+	r.tr.Emit("req", "run", r.id, "tok", tok, "op", op, "stmt", text, "vals", q.Vals, "size", q.Size, "cons", q.Cons, "flags", flags,
+		"serial", q.Serial, "ts", ts, "hflags", hflags, "payload", q.Payload, "bad", q.Err)
 	r.mu.Unlock()
 
 	var d time.Duration
@@ -213,7 +307,7 @@ func (r *vfC15Run) onRequest(nc *vfNodeConn, f *vfFrame, q *vfRequest, text stri
 }
 
 // serve answers the k-th request of the execution (log: it is one) carrying token tok.
-func (r *vfC15Run) serve(nc *vfNodeConn, f *vfFrame, q *vfRequest, tok, k int, log bool) {
+func (r *vfC15Run) serve(nc *vfNodeConn, f *vfFrame, q *vfC15Req, tok, k int, log bool) {
 	c := &r.c
 	resp := func(page, ok, next int) {
 		if log {
@@ -255,7 +349,14 @@ func (r *vfC15Run) serve(nc *vfNodeConn, f *vfFrame, q *vfRequest, tok, k int, l
 		cells = append(cells, [][]byte{vfCellInt(int32(page)), vfCellInt(int32(i)), vfCellText(fmt.Sprintf("r%d.%d", page, i))})
 	}
 	resp(page, 1, next)
-	nc.Reply(f, vfOpResult, vfRowsBody(f.Version, "ks", "t", vfC15Cols, cells, ps, q.QFlags&0x02 != 0))
+	body := vfRowsBody(f.Version, "ks", "t", vfC15Cols, cells, ps, q.Flags&0x02 != 0)
+	if f.Flags&0x02 != 0 { // tracing requested: the response carries the flag and a tracing id ahead of the body
+		id := make([]byte, 16)
+		id[15] = byte(page)
+		nc.ReplyFlags(f, 0x02, vfOpResult, append(id, body...))
+		return
+	}
+	nc.Reply(f, vfOpResult, body)
 }
 
 func (r *vfC15Run) emitResp(page, ok, next int) {
@@ -356,6 +457,30 @@ func (w *vfC15Worker) runCase(c vfC15Case, seed int64) (results []vfC15Result, t
 	if c.Mode == "manual" {
 		q = q.PageState(callerState)
 	}
+	switch c.Opt {
+	case "serial":
+		q = q.SerialConsistency(LocalSerial)
+	case "spec": // speculative execution armed; the delay is far beyond any answer, no second attempt is ever started
+		q = q.Idempotent(true).SetSpeculativeExecutionPolicy(&SimpleSpeculativeExecution{NumAttempts: 1, TimeoutDelay: 5 * time.Minute})
+	case "retry": // a retry policy is present; it rethrows (what retries do to a failed page is C13's)
+		q = q.RetryPolicy(vfC15Rethrow{})
+	case "ctx": // the usual ctx, cancel := ...; defer cancel()
+		ctx, cancel := context.WithCancel(context.Background())
+		defer cancel()
+		q = q.WithContext(ctx)
+	case "ctxto":
+		ctx, cancel := context.WithTimeout(context.Background(), 10*time.Minute)
+		defer cancel()
+		q = q.WithContext(ctx)
+	case "observer":
+		q = q.Observer(&vfC15Obs{})
+	case "trace":
+		q = q.Trace(&vfC15Tracer{})
+	case "ts":
+		q = q.WithTimestamp(1700000000000000 + int64(c.Run))
+	case "payload":
+		q = q.CustomPayload(map[string][]byte{"vf": {1, 2, 3}})
+	}
 	for e := 1; e <= len(c.Plan); e++ {
 		if e > 1 && c.Rebind == 1 {
 			q = q.Bind(vals...) // documented: rebinding an existing query instance (it also forgets the page state)
@@ -366,7 +491,16 @@ func (w *vfC15Worker) runCase(c vfC15Case, seed int64) (results []vfC15Result, t
 		// odd single-execution cases hand the Query back to the pool - AFTER the iteration is over: doc.go ("Query
 		// values ... must not be modified after starting execution of the query") and the example at Query.Release
 		// (Exec, then Release) do not allow touching the Query while its iterator can still fetch pages
-		rel := len(c.Plan) == 1 && c.Run%2 == 1
+		rel := 0
+		if len(c.Plan) == 1 && c.Run%2 == 1 {
+			rel = 1
+		}
+		// opt "release": the caller is done with the Query as soon as Iter() has returned and hands it back; the pool
+		// gives the object to the next Session.Query calls while the iterator still has pages to fetch (ruling in
+		// notes/C15.md: Release ends the caller's use of the *Query*; nothing documents the Iter as invalid)
+		if c.Opt == "release" && len(c.Plan) == 1 {
+			rel = 2
+		}
 		res, evs := w.runExec(c, e, q, rel, seed)
 		results = append(results, res)
 		traces = append(traces, evs)
@@ -377,7 +511,7 @@ func (w *vfC15Worker) runCase(c vfC15Case, seed int64) (results []vfC15Result, t
 	return
 }
 
-func (w *vfC15Worker) runExec(c vfC15Case, exec int, q *Query, rel bool, seed int64) (vfC15Result, []map[string]interface{}) {
+func (w *vfC15Worker) runExec(c vfC15Case, exec int, q *Query, rel int, seed int64) (vfC15Result, []map[string]interface{}) {
 	stop := c.Plan[exec-1]
 	if c.Kind == "SliceMap" {
 		stop = -1 // one call: it cannot stop early
@@ -388,7 +522,7 @@ func (w *vfC15Worker) runExec(c vfC15Case, exec int, q *Query, rel bool, seed in
 	w.cur.Store(r)
 	r.tr.Emit("begin", "run", r.id, "id", c.ID, "pages", c.Pages, "q", c.Q, "kind", c.Kind, "fail", c.Fail, "mode", c.Mode,
 		"start", c.Start, "prep", c.Prep, "skip", c.Skip, "size", c.Size, "sched", c.Sched, "exec", exec, "stop", stop,
-		"rebind", c.Rebind)
+		"rebind", c.Rebind, "opt", c.Opt)
 
 	rows := [][2]int{}
 	row := func(p, i int, sv string) {
@@ -432,6 +566,13 @@ func (w *vfC15Worker) runExec(c vfC15Case, exec int, q *Query, rel bool, seed in
 			}
 		}()
 		iter = q.Iter()
+		if rel == 2 {
+			q.Release()
+			s := w.sess[c.Skip&1]
+			// other queries of the application take the pooled object (never executed: only their construction matters)
+			w.churn[0] = s.Query("SELECT x FROM ks.other WHERE a = ? AND b = ?", 990001, 990002).PageSize(7).Consistency(Any)
+			w.churn[1] = s.Query("SELECT y FROM ks.other2 WHERE a = ? AND b = ?", 990003, 990004)
+		}
 		switch c.Kind {
 		case "Scan":
 			for more() {
@@ -500,8 +641,11 @@ func (w *vfC15Worker) runExec(c vfC15Case, exec int, q *Query, rel bool, seed in
 		_, exposed = vfC15Tok(c.Run, iter.PageState())
 	}
 	// in-package look at what the execution left in the caller's Query
-	_, qtok := vfC15Tok(c.Run, q.pageState)
-	if rel && panicked == "" {
+	qtok := -2
+	if rel != 2 {
+		_, qtok = vfC15Tok(c.Run, q.pageState)
+	}
+	if rel == 1 && panicked == "" {
 		q.Release()
 	}
 	normal, errpage, msg := 1, 0, ""
@@ -528,7 +672,8 @@ func (w *vfC15Worker) runExec(c vfC15Case, exec int, q *Query, rel bool, seed in
 			}
 		}
 		switch vfErrClass(err) {
-		case "timeout", "closed", "ctx", "net":
+		// (a cancelled context is NOT environment: the harness cancels the caller's context only after the end)
+		case "timeout", "closed", "net":
 			res.Env = "environment error, not paging behaviour: " + msg
 		}
 	} else if stopped {
